@@ -498,6 +498,11 @@ def build_unit(unit_path, repo_root, out_path):
     """unit_path: /verif/units/<unit>.json.  Returns the info dict (also written next to out_path)."""
     unit = json.load(open(unit_path))
     base = os.path.dirname(os.path.abspath(unit_path))
+    for inc in unit.get('include', []):
+        sub = json.load(open(os.path.join(base, inc)))
+        unit['preludes'] = sub.get('preludes', []) + [p for p in unit.get('preludes', []) if p not in sub.get('preludes', [])]
+        unit['sections'] = sub.get('sections', []) + [x for x in unit.get('sections', []) if x not in sub.get('sections', [])]
+        unit['crate_attrs'] = unit.get('crate_attrs') or sub.get('crate_attrs', [])
     em = Emitter()
     for a in unit.get('crate_attrs', []):
         em.write(a + '\n')
